@@ -1,5 +1,5 @@
 /-
-C07 support, part 3: the read-path invariant `RInv` on store, file system and
+C07 support, part 3: the read-path invariant `RdInv` on store, file system and
 worker, and its preservation by the caller-side building blocks (journalling a
 record, chunk rotation, purge of closed chunks, flush) and by worker steps.
 -/
@@ -62,7 +62,7 @@ theorem Located.mono {s s' : Store} {fs fs' : Fs} {w w' : Worker} {d : LogData} 
   exact ⟨hlive, h2, h3, pre, post ++ ext, by rw [he, h4]; simp, h5⟩
 
 /-- **The read-path invariant** (store / file system / worker level). -/
-structure RInv (s : Store) (fs : Fs) (w : Worker) (r : RefLog) : Prop where
+structure RdInv (s : Store) (fs : Fs) (w : Worker) (r : RefLog) : Prop where
   ref : RefinesNoCache s r
   /-- a cached payload of a live id is the spec payload -/
   cval : ∀ e ∈ s.cache.items, ∀ a ∈ r.entries, a.1 = e.1 → a.2 = e.2
@@ -78,7 +78,7 @@ structure RInv (s : Store) (fs : Fs) (w : Worker) (r : RefLog) : Prop where
   /-- every file entry the worker holds or will be told about is consistent -/
   ents : ∀ f ∈ w.fents, EntOK s f.id f.prevLast
 
-theorem RInv.id_le_last {s : Store} {fs : Fs} {w : Worker} {r : RefLog} (h : RInv s fs w r)
+theorem RdInv.id_le_last {s : Store} {fs : Fs} {w : Worker} {r : RefLog} (h : RdInv s fs w r)
     {x : Nat × LogData} (hx : x ∈ s.log) : optLe (some x.2.id) s.st.last = true := by
   obtain ⟨a, ha, _, hid⟩ := mem_log_indexNC h.ref hx
   have := (h.ref.wf.below a ha).1
@@ -86,12 +86,12 @@ theorem RInv.id_le_last {s : Store} {fs : Fs} {w : Worker} {r : RefLog} (h : RIn
   have e : s.st.last = r.last := by rw [h.ref.st]; rfl
   rw [e]; exact this
 
-theorem RInv.index_eq {s : Store} {fs : Fs} {w : Worker} {r : RefLog} (h : RInv s fs w r)
+theorem RdInv.index_eq {s : Store} {fs : Fs} {w : Worker} {r : RefLog} (h : RdInv s fs w r)
     {x : Nat × LogData} (hx : x ∈ s.log) : x.2.id.index = x.1 := by
   obtain ⟨a, _, hi, hid⟩ := mem_log_indexNC h.ref hx
   rw [← hid]; exact hi
 
-theorem RInv.chunk_le {s : Store} {fs : Fs} {w : Worker} {r : RefLog} (h : RInv s fs w r)
+theorem RdInv.chunk_le {s : Store} {fs : Fs} {w : Worker} {r : RefLog} (h : RdInv s fs w r)
     (hj : JInv s fs w) {x : Nat × LogData} (hx : x ∈ s.log) : x.2.chunk ≤ s.openId := by
   obtain ⟨p, _, hl, _⟩ := h.loc x hx
   rcases hl with h1 | ⟨c, hc, h1⟩
@@ -100,7 +100,7 @@ theorem RInv.chunk_le {s : Store} {fs : Fs} {w : Worker} {r : RefLog} (h : RInv 
 
 /-! ### Transfer: same reference log, same index map, same `last` -/
 
-theorem RInv.transfer {s s' : Store} {fs fs' : Fs} {w w' : Worker} {r : RefLog} (h : RInv s fs w r)
+theorem RdInv.transfer {s s' : Store} {fs fs' : Fs} {w w' : Worker} {r : RefLog} (h : RdInv s fs w r)
     (href : RefinesNoCache s' r) (hlog : s'.log = s.log) (hlast : s'.st.last = s.st.last)
     (hlive : ∀ x ∈ s.log, LiveChunk s x.2.chunk → LiveChunk s' x.2.chunk)
     (hbytes : ∀ x ∈ s.log, ∃ ext, chunkBytes s' fs' w' x.2.chunk = chunkBytes s fs w x.2.chunk ++ ext)
@@ -110,7 +110,7 @@ theorem RInv.transfer {s s' : Store} {fs fs' : Fs} {w w' : Worker} {r : RefLog} 
     (hres : ∀ x ∈ s.log, ((∃ p, (x.2.id, p) ∈ s.cache.items) ∨ x.2.chunk < w.cur) →
       ((∃ p, (x.2.id, p) ∈ s'.cache.items) ∨ x.2.chunk < w'.cur))
     (hbnd : EntOK s w'.cur s'.cache.lastEvictable)
-    (hents : ∀ f ∈ w'.fents, f ∈ w.fents ∨ EntOK s f.id f.prevLast) : RInv s' fs' w' r := by
+    (hents : ∀ f ∈ w'.fents, f ∈ w.fents ∨ EntOK s f.id f.prevLast) : RdInv s' fs' w' r := by
   refine ⟨href, fun e he => h.cval e (hcval e he), ?_, ?_, ?_, hbnd.congr hlast hlog, ?_⟩
   · intro x hx
     rw [hlog] at hx
@@ -192,7 +192,7 @@ theorem Store.applied_openEnd (s : Store) (r : Record) (st' : RState) :
     (s.applied r st').openEnd = s.openEnd + (encRecord r).length := by
   simp [Store.applied, Store.openEnd, lastOff_append]
 
-theorem appendAndApply_shape {s : Store} (fsHas : Nat → Bool) {r : Record} {st' : RState}
+theorem appendAndApply_shapeRd {s : Store} (fsHas : Nat → Bool) {r : Record} {st' : RState}
     (hst : s.st.apply r = .ok st') (hr : r.small) (hne : s.openOffsets ≠ [])
     (hfs : fsHas (s.openEnd + (encRecord r).length) = false) :
     s.appendAndApply fsHas r = (.ok ⟨s.openEnd, (encRecord r).length⟩,
@@ -281,7 +281,7 @@ theorem refinesNC_applied {s : Store} {r' : RefLog} (fsHas : Nat → Bool) {rec 
   have hne : s.openOffsets ≠ [] := by
     intro h0; have := hpf.open2; rw [h0] at this; simp at this
   obtain ⟨seg, s', effs, heq, href, _⟩ := h
-  rw [appendAndApply_shape fsHas hst hsm hne hfs] at heq
+  rw [appendAndApply_shapeRd fsHas hst hsm hne hfs] at heq
   have h2 : 2 ≤ (s.applied rec st').openOffsets.length := by
     have := hpf.open2; simp [Store.applied]; omega
   rcases tryCloseFull_cases (s.applied rec st') fsHas (by rw [Store.applied_openEnd]; exact hfs)
@@ -306,8 +306,8 @@ theorem chunkBytes_open_length {s : Store} {fs : Fs} {w : Worker} (hj : JInv s f
 
 /-- The general shape of the three kinds of journalled records (plain, append,
 purge): what must be known about the new index map, cache and spec entries. -/
-theorem RInv.applied_of {s : Store} {fs : Fs} {w : Worker} {r r' : RefLog} {rec : Record} {st' : RState}
-    (hj : JInv s fs w) (h : RInv s fs w r)
+theorem RdInv.applied_of {s : Store} {fs : Fs} {w : Worker} {r r' : RefLog} {rec : Record} {st' : RState}
+    (hj : JInv s fs w) (h : RdInv s fs w r)
     (href : RefinesNoCache (s.applied rec st') r')
     (hlast : optLe s.st.last st'.last = true)
     (hle : (idxCache rec s.cache).lastEvictable = s.cache.lastEvictable)
@@ -319,7 +319,7 @@ theorem RInv.applied_of {s : Store} {fs : Fs} {w : Worker} {r r' : RefLog} {rec 
     (hcval : ∀ e ∈ (idxCache rec s.cache).items, ∀ a ∈ r'.entries, a.1 = e.1 → a.2 = e.2)
     (hres : ∀ x ∈ s.log, ((∃ p, (x.2.id, p) ∈ s.cache.items) ∨ x.2.chunk < w.cur) →
       ((∃ p, (x.2.id, p) ∈ (idxCache rec s.cache).items) ∨ x.2.chunk < w.cur)) :
-    RInv (s.applied rec st') fs w r' := by
+    RdInv (s.applied rec st') fs w r' := by
   have hne := hj.openBytes.ne_nil
   have hlog' : ∀ x ∈ (s.applied rec st').log, x ∈ s.log ∨ optLe (some x.2.id) s.st.last = false := by
     intro x hx
@@ -357,14 +357,14 @@ theorem RInv.applied_of {s : Store} {fs : Fs} {w : Worker} {r r' : RefLog} {rec 
   · intro f hf
     exact (h.ents f hf).step hlast hlog'
 
-theorem RInv.plain {s : Store} {fs : Fs} {w : Worker} {r r' : RefLog} {rec : Record} {st' : RState}
-    (hj : JInv s fs w) (h : RInv s fs w r) (href : RefinesNoCache (s.applied rec st') r')
+theorem RdInv.plain {s : Store} {fs : Fs} {w : Worker} {r r' : RefLog} {rec : Record} {st' : RState}
+    (hj : JInv s fs w) (h : RdInv s fs w r) (href : RefinesNoCache (s.applied rec st') r')
     (hkind : (∃ v, rec = .saveVote v) ∨ (∃ id, rec = .commit id) ∨ (∃ x, rec = .state x))
     (hent : r'.entries = r.entries) (hlast : st'.last = s.st.last) :
-    RInv (s.applied rec st') fs w r' := by
+    RdInv (s.applied rec st') fs w r' := by
   have hidx : (∀ chunk seg, idxLog rec chunk seg s.log = s.log) ∧ idxCache rec s.cache = s.cache := by
     rcases hkind with ⟨v, hv⟩ | ⟨id, hv⟩ | ⟨x, hv⟩ <;> subst hv <;> exact ⟨fun _ _ => rfl, rfl⟩
-  apply RInv.applied_of hj h href
+  apply RdInv.applied_of hj h href
   · rw [hlast]; exact optLe_refl _
   · rw [hidx.2]
   · intro x hx
@@ -385,10 +385,10 @@ theorem Cache.insert_split {c : Cache} {k : LogId} {v : Bytes} (hok : c.OK)
   simp only [Cache.insert, Cache.tryEvict, insertSorted_of_all_lt k v c.items hk]
   exact h1
 
-theorem RInv.append1 {s : Store} {fs : Fs} {w : Worker} {r r1 : RefLog} {id : LogId} {p : Bytes}
-    (hj : JInv s fs w) (h : RInv s fs w r) (hc : r.append1 id p = .ok r1)
+theorem RdInv.append1 {s : Store} {fs : Fs} {w : Worker} {r r1 : RefLog} {id : LogId} {p : Bytes}
+    (hj : JInv s fs w) (h : RdInv s fs w r) (hc : r.append1 id p = .ok r1)
     (href : RefinesNoCache (s.applied (.append id p) r1.state) r1) :
-    RInv (s.applied (.append id p) r1.state) fs w r1 := by
+    RdInv (s.applied (.append id p) r1.state) fs w r1 := by
   obtain ⟨hr1, hnle, _, hold, _⟩ := RefLog.append1_facts h.ref.wf hc
   have hlastEq : s.st.last = r.last := by rw [h.ref.st]; rfl
   have hnle' : optLe (some id) s.st.last = false := by rw [hlastEq]; exact hnle
@@ -406,7 +406,7 @@ theorem RInv.append1 {s : Store} {fs : Fs} {w : Worker} {r r1 : RefLog} {id : Lo
     intro e he
     have : e ∈ s.cache.items ++ [(id, p)] := by rw [hsplit]; exact List.mem_append_right _ he
     simpa using this
-  apply RInv.applied_of hj h href
+  apply RdInv.applied_of hj h href
   · show optLe s.st.last r1.state.last = true
     rw [hr1, hlastEq]
     exact optLe_of_lt ((optLt_iff_not_le _ _).2 hnle)
@@ -440,13 +440,13 @@ theorem RInv.append1 {s : Store} {fs : Fs} {w : Worker} {r r1 : RefLog} {id : Lo
     · exact .inl ⟨q, List.mem_append_left _ hq⟩
     · exact .inr hres
 
-theorem RInv.purge {s : Store} {fs : Fs} {w : Worker} {r : RefLog} {upto : LogId}
-    (hj : JInv s fs w) (h : RInv s fs w r)
+theorem RdInv.purge {s : Store} {fs : Fs} {w : Worker} {r : RefLog} {upto : LogId}
+    (hj : JInv s fs w) (h : RdInv s fs w r)
     (href : RefinesNoCache (s.applied (.purgeUpto upto) (r.purged' upto).state) (r.purged' upto)) :
-    RInv (s.applied (.purgeUpto upto) (r.purged' upto).state) fs w (r.purged' upto) := by
+    RdInv (s.applied (.purgeUpto upto) (r.purged' upto).state) fs w (r.purged' upto) := by
   have hlastEq : s.st.last = r.last := by rw [h.ref.st]; rfl
   obtain ⟨pre, hsplit, hpre⟩ := purgeLoop_pre upto s.cache.lastEvictable s.cache.size s.cache.items
-  apply RInv.applied_of hj h href
+  apply RdInv.applied_of hj h href
   · show optLe s.st.last (r.purged' upto).last = true
     rw [hlastEq]
     simp only [RefLog.purged']
@@ -480,9 +480,9 @@ theorem reqEnts_rotateEffs (s : Store) : reqEnts (effQ (rotateEffs s)) = [⟨s.o
   rw [effQ_rotateEffs]
   by_cases hp : s.pending.isEmpty = true <;> simp [hp, WReq.ents]
 
-theorem RInv.rotate {s : Store} {fs : Fs} {w : Worker} {r : RefLog} (hj : JInv s fs w)
-    (h : RInv s fs w r) :
-    RInv s.rotated (effFs (rotateEffs s) fs) (w.push (effQ (rotateEffs s))) r := by
+theorem RdInv.rotate {s : Store} {fs : Fs} {w : Worker} {r : RefLog} (hj : JInv s fs w)
+    (h : RdInv s fs w r) :
+    RdInv s.rotated (effFs (rotateEffs s) fs) (w.push (effQ (rotateEffs s))) r := by
   have hlt := hj.openId_lt
   apply h.transfer (s' := s.rotated) h.ref.rotated rfl rfl
   · intro x _ hl
@@ -517,10 +517,10 @@ theorem RInv.rotate {s : Store} {fs : Fs} {w : Worker} {r : RefLog} (hj : JInv s
 
 /-! ### Purge drops obsolete closed chunks -/
 
-theorem RInv.dropObsolete {s : Store} {fs : Fs} {w : Worker} {r : RefLog} {upto : LogId}
-    (h : RInv s fs w r) (hgt : ∀ x ∈ s.log, upto.lt x.2.id = true) :
-    RInv ({ s with closed := (popObsolete upto s.closed).2,
-                   removed := s.removed ++ (popObsolete upto s.closed).1 } : Store) fs w r := by
+theorem RdInv.dropObsolete {s : Store} {fs : Fs} {w : Worker} {r : RefLog} {upto : LogId}
+    (h : RdInv s fs w r) (hgt : ∀ x ∈ s.log, upto.lt x.2.id = true) :
+    RdInv ({ s with closed := (popObsolete upto s.closed).2,
+                    removed := s.removed ++ (popObsolete upto s.closed).1 } : Store) fs w r := by
   obtain ⟨k, _, h2, h3, _⟩ := popObsolete_spec upto s.closed
   apply h.transfer (s' := ({ s with closed := (popObsolete upto s.closed).2, removed := s.removed ++ (popObsolete upto s.closed).1 } : Store))
     (h.ref.of_fields rfl rfl rfl rfl) rfl rfl
@@ -581,9 +581,9 @@ theorem reqEnts_flush (s : Store) (cb : Option Nat) : reqEnts (effQ (s.flush cb)
   rw [effQ_flush]
   by_cases hr : s.removed.isEmpty = true <;> simp [hr, WReq.ents]
 
-theorem RInv.flush {s : Store} {fs : Fs} {w : Worker} {r : RefLog} (hj : JInv s fs w)
-    (h : RInv s fs w r) (cb : Option Nat) :
-    RInv (s.flush cb).1 (effFs (s.flush cb).2 fs) (w.push (effQ (s.flush cb).2)) r := by
+theorem RdInv.flush {s : Store} {fs : Fs} {w : Worker} {r : RefLog} (hj : JInv s fs w)
+    (h : RdInv s fs w r) (cb : Option Nat) :
+    RdInv (s.flush cb).1 (effFs (s.flush cb).2 fs) (w.push (effQ (s.flush cb).2)) r := by
   rw [effFs_flush]
   apply h.transfer (s' := (s.flush cb).1) (h.ref.of_fields rfl rfl rfl rfl) rfl rfl
   · exact fun x _ hl => hl
@@ -611,8 +611,8 @@ theorem Worker.settle_cur (w : Worker) : w.settle.cur = w.cur := by
   obtain ⟨_, h2, _, _, _⟩ := w.settle_facts
   simp only [Worker.cur, h2]
 
-theorem RInv.settle {s : Store} {fs : Fs} {w : Worker} {r : RefLog} (h : RInv s fs w r) :
-    RInv s fs w.settle r := by
+theorem RdInv.settle {s : Store} {fs : Fs} {w : Worker} {r : RefLog} (h : RdInv s fs w r) :
+    RdInv s fs w.settle r := by
   apply h.transfer h.ref rfl rfl
   · exact fun x _ hl => hl
   · intro x _
@@ -641,11 +641,11 @@ theorem StepGood.cur_le {s : Store} {c c' : WCtx} (hj : JInv s c.fs c.w) (g : St
 
 theorem newestId_singleton (f : FileEnt) : newestId [f] = f.id := by simp [newestId]
 
-theorem RInv.wstep {s : Store} {c c' : WCtx} {r : RefLog} (hj : JInv s c.fs c.w)
-    (h : RInv ({ s with cache := c.cache } : Store) c.fs c.w r)
+theorem RdInv.wstep {s : Store} {c c' : WCtx} {r : RefLog} (hj : JInv s c.fs c.w)
+    (h : RdInv ({ s with cache := c.cache } : Store) c.fs c.w r)
     (g : StepGood c c') (hsame : SameItems c'.cache c.cache)
     (hents : ∀ x ∈ c'.w.fents, x ∈ c.w.fents) (hb : BndStep c c') :
-    RInv ({ s with cache := c'.cache } : Store) c'.fs c'.w r := by
+    RdInv ({ s with cache := c'.cache } : Store) c'.fs c'.w r := by
   have hcur := g.cur_le hj
   have href : RefinesNoCache ({ s with cache := c'.cache } : Store) r := h.ref.of_same hsame
   apply h.transfer (s' := ({ s with cache := c'.cache } : Store)) href rfl rfl
@@ -681,8 +681,8 @@ theorem RInv.wstep {s : Store} {c c' : WCtx} {r : RefLog} (hj : JInv s c.fs c.w)
 
 /-! ### `drain` -/
 
-theorem RInv.drain {s : Store} {fs : Fs} {w : Worker} {r : RefLog} (h : RInv s fs w r) :
-    RInv ({ s with cache := s.cache.drainEvictable } : Store) fs w r := by
+theorem RdInv.drain {s : Store} {fs : Fs} {w : Worker} {r : RefLog} (h : RdInv s fs w r) :
+    RdInv ({ s with cache := s.cache.drainEvictable } : Store) fs w r := by
   obtain ⟨pre, h1, _, h3, _⟩ :=
     drainLoop_spec s.cache.lastEvictable s.cache.size s.cache.items h.ref.cinv.ok.size_eq
   apply h.transfer (s' := ({ s with cache := s.cache.drainEvictable } : Store)) h.ref.drain rfl rfl
@@ -704,14 +704,14 @@ theorem RInv.drain {s : Store} {fs : Fs} {w : Worker} {r : RefLog} (h : RInv s f
 record-kind lemma for the state before the rotation check (`hstage`), the
 journal invariant and the read-path invariant hold after the call's effects. -/
 theorem aa_rinv {s : Store} {fs : Fs} {w : Worker} {r r' : RefLog} (fsHas : Nat → Bool) {rec : Record}
-    (hj : JInv s fs w) (h : RInv s fs w r) (hrec : rec.WF) (hsm : rec.small)
+    (hj : JInv s fs w) (h : RdInv s fs w r) (hrec : rec.WF) (hsm : rec.small)
     (hfs : ∀ i, s.openEnd ≤ i → fsHas i = false)
     (hst : s.st.apply rec = .ok r'.state)
     (hnc : ∃ seg s' effs, s.appendAndApply fsHas rec = (.ok seg, s', effs) ∧ RefinesNoCache s' r' ∧
       Growth0 s s' effs)
-    (hstage : RefinesNoCache (s.applied rec r'.state) r' → RInv (s.applied rec r'.state) fs w r') :
+    (hstage : RefinesNoCache (s.applied rec r'.state) r' → RdInv (s.applied rec r'.state) fs w r') :
     ∃ seg s' effs, s.appendAndApply fsHas rec = (.ok seg, s', effs) ∧
-      JInv s' (effFs effs fs) (w.push (effQ effs)) ∧ RInv s' (effFs effs fs) (w.push (effQ effs)) r' ∧
+      JInv s' (effFs effs fs) (w.push (effQ effs)) ∧ RdInv s' (effFs effs fs) (w.push (effQ effs)) r' ∧
       Growth0 s s' effs := by
   have hne := hj.openBytes.ne_nil
   have hfs' : fsHas (s.openEnd + (encRecord rec).length) = false := hfs _ (by omega)
@@ -720,7 +720,7 @@ theorem aa_rinv {s : Store} {fs : Fs} {w : Worker} {r r' : RefLog} (fsHas : Nat 
   have hjj := (appendAndApply_J fsHas hj hrec hfs).inv
   obtain ⟨seg, s', effs, heq, _, hg⟩ := hnc
   refine ⟨seg, s', effs, heq, by rw [heq] at hjj; exact hjj, ?_, hg⟩
-  rw [appendAndApply_shape fsHas hst hsm hne hfs'] at heq
+  rw [appendAndApply_shapeRd fsHas hst hsm hne hfs'] at heq
   rcases tryCloseFull_cases (s.applied rec r'.state) fsHas (by rw [Store.applied_openEnd]; exact hfs')
     with e | e <;> rw [e] at heq <;> simp only [Prod.mk.injEq] at heq <;> obtain ⟨_, rfl, rfl⟩ := heq
   · simpa [effFs, effQ] using h3
@@ -728,11 +728,11 @@ theorem aa_rinv {s : Store} {fs : Fs} {w : Worker} {r r' : RefLog} (fsHas : Nat 
 
 theorem appendBatch_rinv (es : List (LogId × Bytes)) :
     ∀ (s : Store) (r r' : RefLog) (fsHas : Nat → Bool) (seg : Seg) (effs : List Eff) (fs : Fs) (w : Worker),
-    JInv s (effFs effs fs) (w.push (effQ effs)) → RInv s (effFs effs fs) (w.push (effQ effs)) r →
+    JInv s (effFs effs fs) (w.push (effQ effs)) → RdInv s (effFs effs fs) (w.push (effQ effs)) r →
     (∀ i, s.openEnd ≤ i → fsHas i = false) → r.appendAll es = .ok r' →
     (∀ e ∈ es, smallId e.1) → (∀ e ∈ es, e.1.WF ∧ bytesWF e.2) →
     ∃ seg' s' effs', Store.appendBatch fsHas es s seg effs = (.ok seg', s', effs ++ effs') ∧
-      RInv s' (effFs (effs ++ effs') fs) (w.push (effQ (effs ++ effs'))) r' := by
+      RdInv s' (effFs (effs ++ effs') fs) (w.push (effQ (effs ++ effs'))) r' := by
   induction es with
   | nil =>
     intro s r r' fsHas seg effs fs w _ h _ hc _ _
@@ -750,7 +750,7 @@ theorem appendBatch_rinv (es : List (LogId × Bytes)) :
       have hwf1 : (Record.append id p).WF := hwf (id, p) List.mem_cons_self
       obtain ⟨seg1, s1, e1, heq1, hj1, h1, hg1⟩ :=
         aa_rinv fsHas (rec := .append id p) hj h hwf1 hsm1 hfs (append1_state h.ref hc1)
-          (append1_refinesNC fsHas h.ref hfs hc1 hsm1) (fun href => RInv.append1 hj h hc1 href)
+          (append1_refinesNC fsHas h.ref hfs hc1 hsm1) (fun href => RdInv.append1 hj h hc1 href)
       rw [← effFs_append, Worker.push_push, ← effQ_append] at hj1 h1
       have hfs1 : ∀ i, s1.openEnd ≤ i →
           (fsHas i || e1.any (fun e => e == Eff.create i)) = false := by
@@ -778,11 +778,11 @@ theorem appendBatch_rinv (es : List (LogId × Bytes)) :
 /-- **Every legal, accepted, small, well-formed call other than `truncate`**
 keeps the read-path invariant (on the state after the call's effects). -/
 theorem call_rinv {s : Store} {fs : Fs} {w : Worker} {r r' : RefLog} (fsHas : Nat → Bool) {op : Op}
-    (hj : JInv s fs w) (h : RInv s fs w r) (hfs : ∀ i, s.openEnd ≤ i → fsHas i = false)
+    (hj : JInv s fs w) (h : RdInv s fs w r) (hfs : ∀ i, s.openEnd ≤ i → fsHas i = false)
     (hl : r.legal op = true) (hc : r.call op = .ok r') (hsm : op.small) (hwf : op.WF)
     (hnt : ∀ idx, op ≠ .truncate idx) :
     ∃ seg s' effs, s.call fsHas op = (.ok seg, s', effs) ∧
-      RInv s' (effFs effs fs) (w.push (effQ effs)) r' := by
+      RdInv s' (effFs effs fs) (w.push (effQ effs)) r' := by
   have hpu : s.st.purged = r.purged := by rw [h.ref.st]; rfl
   have hla : s.st.last = r.last := by rw [h.ref.st]; rfl
   cases op with
@@ -796,7 +796,7 @@ theorem call_rinv {s : Store} {fs : Fs} {w : Worker} {r r' : RefLog} (fsHas : Na
         simp [RState.apply, RState.updateVote, h.ref.st, RefLog.state, hcond]
       obtain ⟨seg, s', effs, heq, _, h', _⟩ := aa_rinv fsHas (rec := .saveVote v) hj h hwf trivial hfs hst
         (refinesNC_step_plain fsHas h.ref hfs hst (Or.inl ⟨v, rfl⟩) rfl rfl rfl)
-        (fun href => RInv.plain hj h href (Or.inl ⟨v, rfl⟩) rfl hla.symm)
+        (fun href => RdInv.plain hj h href (Or.inl ⟨v, rfl⟩) rfl hla.symm)
       exact ⟨seg, s', effs, heq, h'⟩
     · cases hc
   | commit id =>
@@ -809,7 +809,7 @@ theorem call_rinv {s : Store} {fs : Fs} {w : Worker} {r r' : RefLog} (fsHas : Na
         simp [RState.apply, RState.commit, h.ref.st, RefLog.state, hcond]
       obtain ⟨seg, s', effs, heq, _, h', _⟩ := aa_rinv fsHas (rec := .commit id) hj h hwf trivial hfs hst
         (refinesNC_step_plain fsHas h.ref hfs hst (Or.inr (Or.inl ⟨id, rfl⟩)) rfl rfl rfl)
-        (fun href => RInv.plain hj h href (Or.inr (Or.inl ⟨id, rfl⟩)) rfl hla.symm)
+        (fun href => RdInv.plain hj h href (Or.inr (Or.inl ⟨id, rfl⟩)) rfl hla.symm)
       exact ⟨seg, s', effs, heq, h'⟩
   | saveUserData d =>
     simp only [RefLog.call] at hc
@@ -823,7 +823,7 @@ theorem call_rinv {s : Store} {fs : Fs} {w : Worker} {r r' : RefLog} (fsHas : Na
     obtain ⟨seg, s', effs, heq, _, h', _⟩ :=
       aa_rinv fsHas (rec := .state { s.st with userData := d }) hj h hrwf trivial hfs hst
         (refinesNC_step_plain fsHas h.ref hfs hst (Or.inr (Or.inr ⟨_, rfl, rfl, rfl⟩)) rfl rfl rfl)
-        (fun href => RInv.plain hj h href (Or.inr (Or.inr ⟨_, rfl⟩)) rfl hla.symm)
+        (fun href => RdInv.plain hj h href (Or.inr (Or.inr ⟨_, rfl⟩)) rfl hla.symm)
     exact ⟨seg, s', effs, heq, h'⟩
   | append es =>
     simp only [Store.call]
@@ -852,7 +852,7 @@ theorem call_rinv {s : Store} {fs : Fs} {w : Worker} {r r' : RefLog} (fsHas : Na
       obtain ⟨seg, s', effs, heq, _, h', _⟩ :=
         aa_rinv fsHas (rec := .purgeUpto upto) (r' := r.purged' upto) hj h hwf hsm hfs
           (purge_state h.ref upto) (purgeUpto_refinesNC fsHas h.ref hfs hl hnn hsm)
-          (fun href => RInv.purge hj h href)
+          (fun href => RdInv.purge hj h href)
       rw [heq]
       simp only
       refine ⟨seg, _, effs, rfl, ?_⟩
